@@ -24,6 +24,8 @@ pub struct SetSpec {
     pub force: Option<bool>,
     /// actions(false): no actions file is generated
     pub noactions: bool,
+    /// LR only: parser_algo(LR) is called explicitly and *after* the other setters, as rcomp's main() does
+    pub algo_last: bool,
 }
 
 impl Default for SetSpec {
@@ -45,6 +47,7 @@ impl Default for SetSpec {
             fancy: false,
             force: None,
             noactions: false,
+            algo_last: false,
         }
     }
 }
@@ -113,6 +116,9 @@ impl SetSpec {
         if self.noactions {
             s = s.actions(false);
         }
+        if self.algo_last && !self.glr {
+            s = s.parser_algo(ParserAlgo::LR);
+        }
         s
     }
     pub fn grammar_order(&self) -> bool {
@@ -124,7 +130,7 @@ impl SetSpec {
     pub fn to_json(&self) -> Value {
         json!({"glr": self.glr, "table": self.table, "ps": self.ps, "pse": self.pse, "ms": self.ms, "lm": self.lm, "go": self.go,
                "partial": self.partial, "skip_ws": self.skip_ws, "builder": self.builder, "gen_table": self.gen_table,
-               "custom_lexer": self.custom_lexer, "loc_info": self.loc_info, "fancy": self.fancy, "force": self.force, "noactions": self.noactions})
+               "custom_lexer": self.custom_lexer, "loc_info": self.loc_info, "fancy": self.fancy, "force": self.force, "noactions": self.noactions, "algo_last": self.algo_last})
     }
     pub fn from_json(v: &Value) -> SetSpec {
         let b = |k: &str, d: bool| v.get(k).and_then(|x| x.as_bool()).unwrap_or(d);
@@ -147,6 +153,7 @@ impl SetSpec {
             fancy: b("fancy", false),
             force: ob("force"),
             noactions: b("noactions", false),
+            algo_last: b("algo_last", false),
         }
     }
 }
